@@ -1,7 +1,7 @@
 (** C06 - conversions are lossless or refused; lossy ones are correctly rounded and say so.
     ONLY statements pinned here; proofs live in Dashu.Conv.*. *)
 From Dashu Require Import Base.Prelude Float.RoundSpec Float.Contract Float.Model Conv.ConvSpec Conv.ConvModel Conv.ConvPrimProofs
-  Conv.ConvArith Conv.ConvIeee Conv.ConvEncodeProofs Conv.ConvStickyProofs Conv.ConvDecodeProofs Conv.ConvFindings.
+  Conv.ConvArith Conv.ConvIeee Conv.ConvEncodeProofs Conv.ConvStickyProofs Conv.ConvDecodeProofs Conv.ConvRatProofs Conv.ConvFindings.
 From DashuGen Require Import RoundTables.
 Open Scope Z_scope.
 
@@ -150,3 +150,27 @@ Theorem C06_rat_to_float_fast_two_ulps_refuted :
   rat_to_float_fast P32 (-4486) 73509287 = fst (ieee_rne F32 (-4486) 73509287) + 2.
 Proof. exact rat_to_float_fast_refuted. Qed.
 Print Assumptions C06_rat_to_float_fast_two_ulps_refuted.
+
+(** RBig::to_f32/to_f64: rounding N/D two or more bits below the quotient's last bit only sees the
+    quotient with a sticky bit; the main branch is then one rounding in encode (partial, see the
+    comment in Conv/ConvRatProofs.v for what is not formalised) *)
+Theorem C06_rational_sticky_rounding : forall num den c, 0 <= num -> 0 < den -> 2 <= c ->
+  let m := Z.lor (num / den) (if num mod den =? 0 then 0 else 1) in
+  spec_round MHalfEven num (den * 2 ^ c) = rne m c /\
+  (spec_round MHalfEven num (den * 2 ^ c) * (den * 2 ^ c) ?= num) = (rne m c * 2 ^ c ?= m).
+Proof. exact rne_rat_sticky. Qed.
+Print Assumptions C06_rational_sticky_rounding.
+
+Theorem C06_rat_to_float_main_partial : forall P a D,
+  1 <= MB P -> MB P + 3 <= W P -> 2 * BIAS P + 2 = 2 ^ (W P - 1 - MB P) -> 1 <= BIAS P ->
+  TOP_MAX P = BIAS P + 1 -> UNDER P = 1 - BIAS P - MB P ->
+  (NORM_LIM P = 1 - BIAS P \/ NORM_LIM P = 2 - BIAS P) ->
+  0 < a ->
+  let m := fst (rat_quot_sticky P a D) in
+  let shift := snd (rat_quot_sticky P a D) in
+  blen (Z.abs m) <= W P ->
+  (shift >=? TOP_MAX P - (MB P + 3 - 1)) = false ->
+  (shift <? - (BIAS P - 1) - MB P - 1 - (MB P + 3 + 1)) = false ->
+  rat_to_float P a D = ieee_rne (fmt_of P) (fst (frac_of m shift)) (snd (frac_of m shift)).
+Proof. exact rat_to_float_main_partial. Qed.
+Print Assumptions C06_rat_to_float_main_partial.
